@@ -539,6 +539,9 @@ func (x *Exec) runLoop(fr *frame, li *loopInfo, inc []edge) []edge {
 	for _, inv := range lc.Invariants {
 		g := x.evalBoolClause(fr, &hs, inv, x.loopOpts(fr, &pre))
 		x.vc.assume(mkImplies(hs.reach, g), "loop invariant "+loopName)
+		if fr.top {
+			x.assumeInstances(fr, &hs, inv, x.loopOpts(fr, &pre), hs.reach, "loop invariant "+loopName)
+		}
 	}
 	if fr.fc != nil {
 		for _, ul := range fr.fc.Uses {
